@@ -4,10 +4,13 @@ Driver for the `cow-bytes` model (C20): executes `Penguin.Chain.step`, `Penguin.
 
   step <cached-len> <segs> <op ...>        one LongChain operation from the given state
   run  <cached-len> <segs> ; <op> ; ...    a whole operation sequence through `Chain.run`
-  seg  <seg> <split_to|split_off|truncate|advance> <n>
+  seg  <seg> <split_to|split_off|truncate|advance|copy_to_bytes|copy_to_slice|get_u8|get_u16|get_u32> <n>
   acc  <seg>                               accessors and hash input
   cmp  <seg> <seg>                         `==` and `partial_cmp`
-<segs> is `-` or `T:0102,S:-,...`; a value is shown as `len=.. rem=.. empty=.. chunk=.. segs=..`.
+<segs> is `-` or `T:0102,S:-,...`; a value is shown as
+`len=.. rem=.. empty=.. more=.. chunk=.. iov=<k=0>|<k=1>|<k=3> segs=..` (`more` is `has_remaining()`, `iov`
+the slices `chunks_vectored` offers for 0, 1 and 3 slots, each `-` or hex joined by `+`).
+Bytes returned by `copy_to_bytes` / `copy_to_slice` are shown as `b:<hex>`, numbers as `n:<decimal>`.
 -/
 import Penguin.Basic.Bytes
 import Penguin.Basic.Loop
@@ -21,8 +24,13 @@ def showSeg (s : Seg) : String :=
 def showSegs (l : List Seg) : String :=
   if l.isEmpty then "-" else ",".intercalate (l.map showSeg)
 
+def showIov (l : List Bytes) : String :=
+  if l.isEmpty then "-" else "+".intercalate (l.map hexOrDash)
+
 def showChain (c : Chain) : String :=
-  s!"len={c.len} rem={c.remaining} empty={c.isEmpty} chunk={hexOrDash c.chunk} segs={showSegs c.asRef}"
+  s!"len={c.len} rem={c.remaining} empty={c.isEmpty} more={c.hasRemaining} chunk={hexOrDash c.chunk} " ++
+  s!"iov={showIov (c.chunksVectored 0)}|{showIov (c.chunksVectored 1)}|{showIov (c.chunksVectored 3)} " ++
+  s!"segs={showSegs c.asRef}"
 
 def showOut : Out → String
   | .unit => "-"
@@ -30,6 +38,10 @@ def showOut : Out → String
   | .popped (some s) => showSeg s
   | .removed s => showSeg s
   | .part c => "[" ++ showChain c ++ "]"
+  | .copied b => "b:" ++ hexOrDash b
+  | .u8 v => s!"n:{v.toNat}"
+  | .u16 v => s!"n:{v.toNat}"
+  | .u32 v => s!"n:{v.toNat}"
 
 def parseSeg (t : String) : Option Seg :=
   match t.splitOn ":" with
@@ -50,6 +62,11 @@ def parseOp : List String → Option Op
   | ["truncate", n] => n.toNat?.map .truncate
   | ["advance", n] => n.toNat?.map .advance
   | ["clear"] => some .clear
+  | ["copy_to_bytes", n] => n.toNat?.map .copyToBytes
+  | ["copy_to_slice", n] => n.toNat?.map .copyToSlice
+  | ["get_u8"] => some .getU8
+  | ["get_u16"] => some .getU16
+  | ["get_u32"] => some .getU32
   | _ => none
 
 /-- Split a token list at the `;` tokens. -/
@@ -75,11 +92,24 @@ def segOp (s : Seg) (op : String) (n : Nat) : Option String :=
     match r with
     | .error p => "panic " ++ showSeg p.left
     | .ok (s', _) => s!"ok {showSeg s'} -"
+  let bytes (r : Res Seg Bytes) : String :=
+    match r with
+    | .error p => "panic " ++ showSeg p.left
+    | .ok (s', b) => s!"ok {showSeg s'} b:{hexOrDash b}"
+  let num (r : Res Seg Nat) : String :=
+    match r with
+    | .error p => "panic " ++ showSeg p.left
+    | .ok (s', v) => s!"ok {showSeg s'} n:{v}"
   match op with
   | "split_to" => some (two (s.splitTo n))
   | "split_off" => some (two (s.splitOff n))
   | "truncate" => some (one (s.truncate n))
   | "advance" => some (one (s.advance n))
+  | "copy_to_bytes" => some (bytes (s.copyToBytes n))
+  | "copy_to_slice" => some (bytes (s.copyToSlice n))
+  | "get_u8" => some (num (s.getU8.map fun (s', v) => (s', v.toNat)))
+  | "get_u16" => some (num (s.getU16.map fun (s', v) => (s', v.toNat)))
+  | "get_u32" => some (num (s.getU32.map fun (s', v) => (s', v.toNat)))
   | _ => none
 
 def step (_ : Unit) (line : String) : Unit × String :=
@@ -109,7 +139,9 @@ def step (_ : Unit) (line : String) : Unit × String :=
     | ["acc", s] =>
       match parseSeg s with
       | some s =>
-        s!"len={s.len} empty={s.isEmpty} rem={s.remaining} chunk={hexOrDash s.chunk} hash={toHex s.hashInput}"
+        s!"len={s.len} empty={s.isEmpty} rem={s.remaining} more={s.hasRemaining} chunk={hexOrDash s.chunk} " ++
+        s!"iov={showIov (s.chunksVectored 0)}|{showIov (s.chunksVectored 1)}|{showIov (s.chunksVectored 3)} " ++
+        s!"hash={toHex s.hashInput}"
       | none => "bad-op"
     | ["cmp", a, b] =>
       match parseSeg a, parseSeg b with
